@@ -163,6 +163,15 @@ def run_targets(targets, jobs=None):
         if r is None:
             results[i] = {"target": targets[i].id, "function": getattr(targets[i], "func", ""), "status": "undecided",
                           "obligations": [], "unsupported": ["worker died without a result"]}
+    # a target whose worker crashed (solver-internal exception, killed process) is run once more, alone:
+    # such failures are not verdicts about the code and must not make a run undecided by accident
+    for i, r in enumerate(results):
+        why = " ".join(str(u) for u in r.get("unsupported", []))
+        if r.get("status") == "undecided" and (r.get("engine_error") or "worker died" in why or "crash" in why or "engine error" in why):
+            r2 = _run_one(i)
+            if r2.get("status") != "undecided" or not (r2.get("engine_error")):
+                r2.setdefault("notes", []).append("second attempt after a worker crash: " + why[:200])
+                results[i] = r2
     return results
 
 
